@@ -44,7 +44,8 @@ type partioCase struct {
 	Op      string `json:"op"`                    // write | copy
 	// Via: "" = the table is written, then read back from the disk by GetPartitionTable (partitions as decoded);
 	// "inmem" = Disk.Partition(table): the Disk keeps the caller's own table object; "unordered" = as inmem with a second
-	// partition (index 2) listed BEFORE the partition under test (index 1) in the table's slice
+	// partition (index 2) listed BEFORE the partition under test (index 1) in the table's slice; "inplace" = the caller's table
+	// object is edited in place (partitions renumbered) after the Disk has already served look-ups from it
 	Via string `json:"via,omitempty"`
 	CopyTo  string `json:"copy_target,omitempty"` // same bigger smaller
 }
@@ -52,6 +53,9 @@ type partioCase struct {
 // sparseByte: position-dependent content that is zero almost everywhere on huge ranges (so that the sparse
 // device stays small) but dense near both ends and around every 64 MiB boundary.
 func sparseByte(off, total int64) byte {
+	if total <= 1<<21 && total >= 3000 && off >= total/3 && off < total/3+1100 {
+		return 0 // a run of zeroes that is longer than any of the reader's pieces (small partitions have no other zero stretch)
+	}
 	if total <= 1<<20 || off < 64<<10 || off >= total-(64<<10) || off%(64<<20) < 32 {
 		return byte(1 + (off*7+off/253)%251)
 	}
@@ -162,6 +166,45 @@ func buildPartDisk(c *partioCase, extra uint64) (*memdev.Dev, *disk.Disk, int64,
 		}
 		tbl = t
 	}
+	if c.Via == "inplace" {
+		// the caller's table first holds another partition as number 1 and the partition under test as number 2; after both
+		// have been looked up once, the caller edits the SAME table object in place - the other partition is dropped, the
+		// one under test becomes number 1 - and hands it to Disk.Partition again
+		dk := &disk.Disk{Backend: be(d, false), Size: size, LogicalBlocksize: lss, PhysicalBlocksize: int64(c.PSS), DefaultBlocks: true}
+		os, oz := c.Start+c.Sectors+3, c.Sectors+2
+		if c.Table == "gpt" {
+			t := tbl.(*gpt.Table)
+			under := t.Partitions[len(t.Partitions)-1]
+			under.Index = 2
+			t.Partitions = []*gpt.Partition{{Index: 1, Start: os, End: os + oz - 1, Type: gpt.LinuxFilesystem, Name: "other", GUID: partGUID(9)}, under}
+			if err := dk.Partition(t); err != nil {
+				return nil, nil, 0, fmt.Errorf("table refused: %w", err)
+			}
+			_, _ = dk.GetPartition(1)
+			_, _ = dk.GetPartition(2)
+			under.Index = 1
+			t.Partitions = []*gpt.Partition{under}
+			if err := dk.Partition(t); err != nil {
+				return nil, nil, 0, fmt.Errorf("table refused: %w", err)
+			}
+		} else {
+			t := tbl.(*mbr.Table)
+			under := t.Partitions[0]
+			under.Index = 2
+			t.Partitions = []*mbr.Partition{{Index: 1, Type: mbr.Linux, Start: uint32(os), Size: uint32(oz)}, under}
+			if err := dk.Partition(t); err != nil {
+				return nil, nil, 0, fmt.Errorf("table refused: %w", err)
+			}
+			_, _ = dk.GetPartition(1)
+			_, _ = dk.GetPartition(2)
+			under.Index = 1
+			t.Partitions = []*mbr.Partition{under}
+			if err := dk.Partition(t); err != nil {
+				return nil, nil, 0, fmt.Errorf("table refused: %w", err)
+			}
+		}
+		return d, dk, size, nil
+	}
 	if c.Via != "" && c.Via != "gaps" {
 		dk := &disk.Disk{Backend: be(d, false), Size: size, LogicalBlocksize: lss, PhysicalBlocksize: int64(c.PSS), DefaultBlocks: true}
 		if err := dk.Partition(tbl); err != nil {
@@ -181,8 +224,8 @@ func buildPartDisk(c *partioCase, extra uint64) (*memdev.Dev, *disk.Disk, int64,
 
 func runPartioCase(c *partioCase) (sig, msg, outcome string) {
 	extra := uint64(0)
-	if c.Op == "copy" || c.Via == "unordered" {
-		extra = c.Sectors + 8
+	if c.Op == "copy" || c.Via == "unordered" || c.Via == "inplace" {
+		extra = c.Sectors + 12
 	}
 	target := 1
 	if c.Via == "gaps" {
@@ -265,6 +308,23 @@ func runPartioCase(c *partioCase) (sig, msg, outcome string) {
 		n++
 	case "zero":
 		n = 0
+	}
+	// what the partition held before is not zero: whatever the reader supplies - zeroes included - must replace it
+	junk := bytes.Repeat([]byte{0xA5, 0x5A, 0xC3}, 1<<16/3+1)[:1<<16]
+	if psize <= 8<<20 {
+		for off := int64(0); off < psize; off += int64(len(junk)) {
+			k := int64(len(junk))
+			if off+k > psize {
+				k = psize - off
+			}
+			d.Poke(junk[:k], pstart+off)
+		}
+	} else {
+		for _, off := range []int64{0, 1<<20 + 12345, 64<<20 - 4096, 64<<20 + 70000, psize/2 + 777, psize - int64(len(junk))} {
+			if off >= 0 && off+int64(len(junk)) <= psize {
+				d.Poke(junk, pstart+off)
+			}
+		}
 	}
 	before := d.Clone()
 	d.Allowed = []memdev.Range{{Lo: pstart, Hi: pstart + psize}}
@@ -395,8 +455,8 @@ func enumC13(quick bool) []partioCase {
 					}
 					if !huge {
 						// the Disk keeps the caller's own table object (Disk.Partition), also with the slice out of index order
-						for _, via := range []string{"inmem", "unordered", "gaps"} {
-							if via != "inmem" && tb == "mbr" {
+						for _, via := range []string{"inmem", "unordered", "gaps", "inplace"} {
+							if via != "inmem" && via != "inplace" && tb == "mbr" {
 								continue // MBR slots are positional
 							}
 							for _, lm := range []string{"size", "size+1"} {
